@@ -2,7 +2,8 @@
   Proofs.RoundTripMatch — stages 3 and 4 of the print/parse round trip: values, operator rules
   and the three match forms  `S op V`,  `S is [not] empty`,  `V [not] in S`.
 
-  RESTRICTIONS (besides ASCII input, see `Proofs/RoundTripLex.lean`):
+  The input is valid UTF-8 text (`VT`); quoted literals may have any valid UTF-8 body.
+  RESTRICTIONS:
   * a DOUBLE-quoted value literal must have a non-empty body not starting with `/`
     (`ValSp.WF`): in the pinned grammar `Value` tries `Selector` first, which reads `"/a/b"` as a
     JSON pointer and `""` as the pointer with one empty element; the literal's `Raw` is then the
@@ -19,7 +20,7 @@ variable {rule : String} {fr : Frame} {rest s : GoString} {off : Nat} {errs : Li
 
 /-! ## 1. Failing `Selector`, `NumberLiteral` -/
 
-theorem fails_Selector (hs : Asc s) (h1 : headIn isAlpha s = false)
+theorem fails_Selector (hs : VT s) (h1 : headIn isAlpha s = false)
     (h2 : GoString.isPrefixOf [34] s = false) :
     Fails rule (.ruleRef "Selector") fr s off errs :=
   Fails.ref look_Selector (by decide)
@@ -30,10 +31,10 @@ theorem fails_Selector (hs : Asc s) (h1 : headIn isAlpha s = false)
 
 /-- a double-quoted token whose body is non-empty and does not start with `/` is not a
     JSON-pointer selector -/
-theorem fails_Selector_dq {c : UInt8} {t : GoString} (hb : Asc (c :: t)) (hc : c ≠ 47)
-    (hq : c ≠ 34) (hr : Asc rest) :
+theorem fails_Selector_dq {c : UInt8} {t : GoString} (hb : VT (c :: t)) (hc : c ≠ 47)
+    (hq : c ≠ 34) (hr : VT rest) :
     Fails rule (.ruleRef "Selector") fr ([34] ++ ((c :: t) ++ rest)) off errs := by
-  have hall : Asc ([34] ++ ((c :: t) ++ rest)) := Asc.cons (by decide) (hb.append hr)
+  have hall : VT ([34] ++ ((c :: t) ++ rest)) := VT.cons (by decide) (hb.append hr)
   have hp47 : GoString.isPrefixOf [47] ((c :: t) ++ rest) = false := by
     have : ¬ (47 : UInt8) = c := fun h => hc h.symm
     simp [GoString.isPrefixOf, this]
@@ -58,7 +59,7 @@ theorem fails_Selector_dq {c : UInt8} {t : GoString} (hb : Asc (c :: t)) (hc : c
 /-- bytes that can start a number -/
 def numStart (n : Nat) : Bool := n == 45 || isDigit n
 
-theorem fails_IntegerOrFloat (hs : Asc s) (h : headIn isDigit s = false) :
+theorem fails_IntegerOrFloat (hs : VT s) (h : headIn isDigit s = false) :
     Fails rule (.ruleRef "IntegerOrFloat") fr s off errs := by
   have h0 : GoString.isPrefixOf [48] s = false := by
     cases s with
@@ -72,9 +73,9 @@ theorem fails_IntegerOrFloat (hs : Asc s) (h : headIn isDigit s = false) :
   have h19 : headIn isDigit19 s = false := headIn_mono (fun _ => isDigit_of_19) h
   exact Fails.ref look_IntegerOrFloat (by decide) (Fails.seq (FailsSeq.here
     (Fails.choice_cons (Fails.lit [48] rfl (by decide) hs h0)
-      (Fails.choice_cons (Fails.seq (FailsSeq.here (Fails.cls hs h19))) Fails.choice_nil))))
+      (Fails.choice_cons (Fails.seq (FailsSeq.here (Fails.cls (by decide) hs h19))) Fails.choice_nil))))
 
-theorem fails_NumberLiteral (hs : Asc s) (h : headIn numStart s = false) :
+theorem fails_NumberLiteral (hs : VT s) (h : headIn numStart s = false) :
     Fails rule (.ruleRef "NumberLiteral") fr s off errs := by
   have hd : headIn isDigit s = false := headIn_mono (fun n hn => by simp [numStart, hn]) h
   have hm : GoString.isPrefixOf [45] s = false := by
@@ -130,7 +131,7 @@ def ValSp.raw : ValSp → GoString
 def ValSp.WF : ValSp → Prop
   | .sel σ => σ.WF
   | .num n => n.WF
-  | .str q body val => (q = 0x60 ∨ q = 0x22) ∧ Asc body ∧ (∀ c ∈ body, c ≠ q) ∧
+  | .str q body val => (q = 0x60 ∨ q = 0x22) ∧ VT body ∧ (∀ c ∈ body, c ≠ q) ∧
       Strconv.unquote ([q] ++ (body ++ [q])) = some val ∧
       (q = 0x22 → ∃ c t, body = c :: t ∧ c ≠ 47)
 
@@ -140,14 +141,14 @@ def ValSp.follow : ValSp → GoString → Prop
   | .num _, rest => numFollow rest = true
   | .str .., _ => True
 
-theorem ValSp.text_asc (v : ValSp) (h : v.WF) : Asc v.text := by
+theorem ValSp.text_vt (v : ValSp) (h : v.WF) : VT v.text := by
   cases v with
-  | sel σ => exact σ.text_asc h
-  | num n => exact n.text_asc h
+  | sel σ => exact σ.text_vt h
+  | num n => exact (n.text_asc h).vt
   | str q body val =>
     obtain ⟨hq, hb, _, _, _⟩ := h
     have hq' : q.toNat < 128 := by rcases hq with rfl | rfl <;> decide
-    exact Asc.cons hq' (hb.append (Asc.cons hq' Asc.nil))
+    exact VT.cons hq' (hb.append (VT.cons hq' VT.nil))
 
 theorem render_bexpr (path : List GoString) (hne : path ≠ []) :
     Selector.render { ty := .bexpr, path := path } = GoString.join [46] path := by
@@ -155,7 +156,7 @@ theorem render_bexpr (path : List GoString) (hne : path ≠ []) :
   | nil => exact absurd rfl hne
   | cons p ps => simp [Selector.render, GoString.ofString_dot]
 
-theorem eats_Value (v : ValSp) (h : v.WF) (hf : v.follow rest) (hr : Asc rest) :
+theorem eats_Value (v : ValSp) (h : v.WF) (hf : v.follow rest) (hr : VT rest) :
     Eats rule (.ruleRef "Value") fr v.text rest off errs fr (.mval v.raw) := by
   cases v with
   | sel σ =>
@@ -166,7 +167,7 @@ theorem eats_Value (v : ValSp) (h : v.WF) (hf : v.follow rest) (hr : Asc rest) :
     rw [render_bexpr _ (by simp [SelSp.path])]
     rfl
   | num n =>
-    have hall : Asc (n.text ++ rest) := (n.text_asc h).append hr
+    have hall : VT (n.text ++ rest) := (n.text_asc h).appendV hr
     -- a number does not start like a selector
     have hstart : headIn isAlpha (n.text ++ rest) = false ∧
         GoString.isPrefixOf [34] (n.text ++ rest) = false := by
@@ -194,8 +195,8 @@ theorem eats_Value (v : ValSp) (h : v.WF) (hf : v.follow rest) (hr : Asc rest) :
   | str q body val =>
     obtain ⟨hq, hb, hnq, hu, hdq⟩ := h
     have hq' : q.toNat < 128 := by rcases hq with rfl | rfl <;> decide
-    have hall : Asc ([q] ++ (body ++ [q]) ++ rest) :=
-      (Asc.cons hq' (hb.append (Asc.cons hq' Asc.nil))).append hr
+    have hall : VT ([q] ++ (body ++ [q]) ++ rest) :=
+      (VT.cons hq' (hb.append (VT.cons hq' VT.nil))).append hr
     have f1 : Fails Pinned.Grammar.rule_28.shown
         (.action "onValue2" (.labeled "selector" (.ruleRef "Selector"))) []
         ([q] ++ (body ++ [q]) ++ rest) off errs := by
@@ -204,7 +205,7 @@ theorem eats_Value (v : ValSp) (h : v.WF) (hf : v.follow rest) (hr : Asc rest) :
       · obtain ⟨c, t, rfl, hc⟩ := hdq rfl
         have := fails_Selector_dq (rule := Pinned.Grammar.rule_28.shown) (fr := []) (off := off)
           (errs := errs) (c := c) (t := t ++ [34]) (rest := rest)
-          (Asc.cons hb.head (hb.tail.append (Asc.cons (by decide) Asc.nil))) hc
+          (by simpa using hb.append (VT.cons (b := 34) (by decide) VT.nil)) hc
           (hnq c (List.mem_cons_self ..)) hr
         exact Fails.action (Fails.labeled (by simpa using this))
     have f2 : Fails Pinned.Grammar.rule_28.shown
@@ -256,7 +257,7 @@ theorem toksText_asc : ∀ (ts : List (Tok × GoString)) (rest : GoString), Toks
       obtain ⟨rfl, hx, h'⟩ := h
       exact hx.append (toksText_asc ts rest h')
 
-theorem eatsSeq_toks : ∀ (ts : List (Tok × GoString)) (off : Nat), ToksOK ts rest → Asc rest →
+theorem eatsSeq_toks : ∀ (ts : List (Tok × GoString)) (off : Nat), ToksOK ts rest → VT rest →
     ∃ vs, EatsSeq rule (ts.map (·.1.expr)) fr (toksText ts) rest off errs fr vs
   | [], off, _, _ => ⟨_, EatsSeq.nil⟩
   | (.ws, w) :: ts, off, h, hr => by
@@ -265,17 +266,17 @@ theorem eatsSeq_toks : ∀ (ts : List (Tok × GoString)) (off : Nat), ToksOK ts 
     cases w with
     | nil => exact absurd rfl hne
     | cons b t =>
-      exact ⟨_, EatsSeq.cons (eats_ws hw hstop ((toksText_asc ts rest h').append hr)) ih⟩
+      exact ⟨_, EatsSeq.cons (eats_ws hw hstop ((toksText_asc ts rest h').appendV hr)) ih⟩
   | (.optWs, w) :: ts, off, h, hr => by
     obtain ⟨hw, hstop, h'⟩ := h
     obtain ⟨vs, ih⟩ := eatsSeq_toks ts (off + w.length) h' hr
     obtain ⟨v, hv⟩ := eats_optWs (rule := rule) (fr := fr) (off := off) (errs := errs) hw hstop
-      ((toksText_asc ts rest h').append hr)
+      ((toksText_asc ts rest h').appendV hr)
     exact ⟨_, EatsSeq.cons hv ih⟩
   | (.kw x, w) :: ts, off, h, hr => by
     obtain ⟨rfl, hx, h'⟩ := h
     obtain ⟨vs, ih⟩ := eatsSeq_toks ts (off + w.length) h' hr
-    exact ⟨_, EatsSeq.cons (Eats.lit w rfl hx ((toksText_asc ts rest h').append hr)) ih⟩
+    exact ⟨_, EatsSeq.cons (Eats.lit w rfl hx ((toksText_asc ts rest h').appendV hr)) ih⟩
 
 /-- the token list does not match at `s` -/
 inductive ToksFail : List Tok → GoString → Prop
@@ -288,23 +289,27 @@ inductive ToksFail : List Tok → GoString → Prop
       ToksFail (.optWs :: ts) (w ++ r)
 
 theorem failsSeq_toks {ts : List Tok} {s : GoString} (h : ToksFail ts s) :
-    ∀ (off : Nat) (es : List PExpr), Asc s →
+    ∀ (off : Nat) (es : List PExpr), VT s →
       FailsSeq rule (ts.map Tok.expr ++ es) fr s off errs := by
   induction h with
   | kwHere hx hp => exact fun off es hs => FailsSeq.here (Fails.lit _ rfl hx hs hp)
   | kwNext hx _ ih =>
-    exact fun off es hs => FailsSeq.later (Eats.lit _ rfl hx hs.right) (ih _ es hs.right)
+    exact fun off es hs => FailsSeq.later (Eats.lit _ rfl hx (VT.right hx hs))
+      (ih _ es (VT.right hx hs))
   | wsNone hstop => exact fun off es hs => FailsSeq.here (fails_ws hs hstop)
   | @wsNext w r ts hw hstop _ ih =>
     intro off es hs
     cases w with
     | nil => exact FailsSeq.here (fails_ws hs hstop)
-    | cons b t => exact FailsSeq.later (eats_ws hw hstop hs.right) (ih _ es hs.right)
+    | cons b t =>
+      have hr := VT.right (hw.asc @isWs_lt) hs
+      exact FailsSeq.later (eats_ws hw hstop hr) (ih _ es hr)
   | optWsNext hw hstop _ ih =>
     intro off es hs
+    have hr := VT.right (hw.asc @isWs_lt) hs
     obtain ⟨v, hv⟩ := eats_optWs (rule := rule) (fr := fr) (off := off) (errs := errs) hw hstop
-      hs.right
-    exact FailsSeq.later hv (ih _ es hs.right)
+      hr
+    exact FailsSeq.later hv (ih _ es hr)
 
 
 /-! ## 4. Operator rules -/
@@ -326,7 +331,7 @@ theorem eats_opRule {name nm : String} {r : Rule} {toks : List Tok} {o : MatchOp
     (he : r.expr = .action nm (.seq (toks.map Tok.expr)))
     (hsem : lookupSem pinSem nm = .constMatchOp o)
     (ts : List (Tok × GoString)) (hts : ts.map (·.1) = toks) (hok : ToksOK ts rest)
-    (hr : Asc rest) :
+    (hr : VT rest) :
     Eats rule (.ruleRef name) fr (toksText ts) rest off errs fr (.mop o) := by
   obtain ⟨vs, hvs⟩ := eatsSeq_toks (rule := r.shown) (fr := []) (errs := errs) ts off hok hr
   have hm : ts.map (·.1.expr) = toks.map Tok.expr := by rw [← hts, List.map_map]; rfl
@@ -338,7 +343,7 @@ theorem eats_opRule {name nm : String} {r : Rule} {toks : List Tok} {o : MatchOp
 theorem fails_opRule {name nm : String} {r : Rule} {toks : List Tok}
     (hl : lookupRule G name = some r) (hn : name ≠ "")
     (he : r.expr = .action nm (.seq (toks.map Tok.expr)))
-    (h : ToksFail toks s) (hs : Asc s) :
+    (h : ToksFail toks s) (hs : VT s) :
     Fails rule (.ruleRef name) fr s off errs := by
   apply Fails.ref hl hn
   rw [he]
@@ -471,7 +476,7 @@ def NoOp6 (r : GoString) : Prop :=
       GoString.isPrefixOf kContains r₂ = false ∧ GoString.isPrefixOf kMatches r₂ = false)
 
 theorem fails_op6 {w₁ r : GoString} (hw : AllIn isWs w₁) (hstop : headIn isWs r = false)
-    (h : NoOp6 r) (hs : Asc (w₁ ++ r)) : Fails rule op6 fr (w₁ ++ r) off errs := by
+    (h : NoOp6 r) (hs : VT (w₁ ++ r)) : Fails rule op6 fr (w₁ ++ r) off errs := by
   obtain ⟨h1, h2, h3, h4, h5⟩ := h
   have f1 : Fails rule (.ruleRef "MatchEqual") [] (w₁ ++ r) off errs :=
     fails_opRule look_MatchEqual (by decide) expr_MatchEqual
@@ -506,14 +511,14 @@ theorem fails_op_first {name nm : String} {r : Rule} {t0 : Tok} {x : GoString} {
     (he : r.expr = .action nm (.seq ((t0 :: .kw x :: more).map Tok.expr)))
     (ht : t0 = .ws ∨ t0 = .optWs) (hx : Asc x) {w₁ r' : GoString}
     (hw : AllIn isWs w₁) (hstop : headIn isWs r' = false)
-    (hp : GoString.isPrefixOf x r' = false) (hs : Asc (w₁ ++ r')) :
+    (hp : GoString.isPrefixOf x r' = false) (hs : VT (w₁ ++ r')) :
     Fails rule (.ruleRef name) fr (w₁ ++ r') off errs :=
   fails_opRule hl hn he (toksFail_first ht hw hstop hx hp) hs
 
 /-- The operator choice of `MatchSelectorOpValue` on a spelled operator. -/
-theorem eats_op6 (o : OpSp) (hok : ToksOK o.spell rest) (hr : Asc rest) :
+theorem eats_op6 (o : OpSp) (hok : ToksOK o.spell rest) (hr : VT rest) :
     Eats rule op6 fr o.text rest off errs fr (.mop o.op) := by
-  have hta : Asc (o.text ++ rest) := (toksText_asc _ _ hok).append hr
+  have hta : VT (o.text ++ rest) := (toksText_asc _ _ hok).appendV hr
   cases o with
   | eq w₁ w₂ =>
     exact Eats.choice_hit (eats_opRule look_MatchEqual (by decide) expr_MatchEqual
@@ -665,10 +670,10 @@ theorem PostSp.toksOK (p : PostSp) (h : p.WF) : ToksOK p.spell rest := by
 
 abbrev isChoice : PExpr := .choice [.ruleRef "MatchIsEmpty", .ruleRef "MatchIsNotEmpty"]
 
-theorem eats_isChoice (p : PostSp) (h : p.WF) (hr : Asc rest) :
+theorem eats_isChoice (p : PostSp) (h : p.WF) (hr : VT rest) :
     Eats rule isChoice fr p.text rest off errs fr (.mop p.op) := by
   have hok := p.toksOK (rest := rest) h
-  have hta : Asc (p.text ++ rest) := (toksText_asc _ _ hok).append hr
+  have hta : VT (p.text ++ rest) := (toksText_asc _ _ hok).appendV hr
   cases p with
   | isEmpty w₁ w₂ =>
     exact Eats.choice_hit (eats_opRule look_MatchIsEmpty (by decide) expr_MatchIsEmpty
@@ -688,7 +693,7 @@ theorem eats_isChoice (p : PostSp) (h : p.WF) (hr : Asc rest) :
       expr_MatchIsNotEmpty sem_onMatchIsNotEmpty1 _ rfl hok hr))
 
 theorem fails_isChoice {w₁ r : GoString} (hw : AllIn isWs w₁) (hstop : headIn isWs r = false)
-    (hp : GoString.isPrefixOf kIs r = false) (hs : Asc (w₁ ++ r)) :
+    (hp : GoString.isPrefixOf kIs r = false) (hs : VT (w₁ ++ r)) :
     Fails rule isChoice fr (w₁ ++ r) off errs :=
   Fails.choice_cons (fails_op_first look_MatchIsEmpty (by decide) expr_MatchIsEmpty (.inl rfl)
       (by decide) hw hstop hp hs)
@@ -723,10 +728,10 @@ theorem InSp.toksOK (p : InSp) (h : p.WF) (hstop : headIn isWs rest = false) :
 
 abbrev inChoice : PExpr := .choice [.ruleRef "MatchIn", .ruleRef "MatchNotIn"]
 
-theorem eats_inChoice (p : InSp) (h : p.WF) (hstop : headIn isWs rest = false) (hr : Asc rest) :
+theorem eats_inChoice (p : InSp) (h : p.WF) (hstop : headIn isWs rest = false) (hr : VT rest) :
     Eats rule inChoice fr p.text rest off errs fr (.mop p.op) := by
   have hok := p.toksOK h hstop
-  have hta : Asc (p.text ++ rest) := (toksText_asc _ _ hok).append hr
+  have hta : VT (p.text ++ rest) := (toksText_asc _ _ hok).appendV hr
   cases p with
   | in_ w₁ w₂ =>
     exact Eats.choice_hit (eats_opRule look_MatchIn (by decide) expr_MatchIn
@@ -795,19 +800,19 @@ def SelX.follow : SelX → GoString → Prop
   | .bexpr _, rest => stopsSel rest
   | .ptr _, _ => True
 
-theorem pointerText_asc (path : List GoString)
-    (h : ∀ p ∈ path, SegOK (Props.C16Lex.ptrEscape p)) : Asc (pointerText path) := by
-  refine Asc.cons (by decide) ((segsText_asc _ ?_).append (Asc.cons (by decide) Asc.nil))
+theorem pointerText_vt (path : List GoString)
+    (h : ∀ p ∈ path, SegOK (Props.C16Lex.ptrEscape p)) : VT (pointerText path) := by
+  refine VT.cons (by decide) ((segsText_vt _ ?_).append (VT.cons (by decide) VT.nil))
   intro g hg
   obtain ⟨p, hp, rfl⟩ := List.mem_map.1 hg
   exact h p hp
 
-theorem SelX.text_asc (x : SelX) (h : x.WF) : Asc x.text := by
+theorem SelX.text_vt (x : SelX) (h : x.WF) : VT x.text := by
   cases x with
-  | bexpr σ => exact σ.text_asc h
-  | ptr path => exact pointerText_asc path h.2
+  | bexpr σ => exact σ.text_vt h
+  | ptr path => exact pointerText_vt path h.2
 
-theorem eats_SelX (x : SelX) (h : x.WF) (hf : x.follow rest) (hr : Asc rest) :
+theorem eats_SelX (x : SelX) (h : x.WF) (hf : x.follow rest) (hr : VT rest) :
     Eats rule (.ruleRef "Selector") fr x.text rest off errs fr (.sel x.sel) := by
   cases x with
   | bexpr σ => exact eats_Selector_bexpr σ h hf hr
@@ -978,15 +983,15 @@ theorem InSp.text_asc (p : InSp) (h : p.WF) : Asc p.text :=
 
 /-- `selector op value` -/
 theorem eats_MatchSelectorOpValue (x : SelX) (o : OpSp) (v : ValSp) (hx : x.WF) (ho : o.WF)
-    (hv : v.WF) (hf : v.follow rest) (hr : Asc rest) :
+    (hv : v.WF) (hf : v.follow rest) (hr : VT rest) :
     Eats rule (.ruleRef "MatchSelectorOpValue") fr (x.text ++ (o.text ++ v.text)) rest off errs fr
       (.expr (.match_ x.sel o.op (some v.raw))) := by
-  have hva := v.text_asc hv
+  have hva := v.text_vt hv
   have hoa := o.text_asc ho
   have e1 := Eats.labeled (rule := Pinned.Grammar.rule_10.shown) (l := "selector") (fr := [])
     (by decide) (eats_SelX (off := off) (errs := errs) x hx
       (x.follow_of_stops (by rw [List.append_assoc]; exact o.stops ho _))
-      (rest := o.text ++ v.text ++ rest) ((hoa.append hva).append hr))
+      (rest := o.text ++ v.text ++ rest) ((hoa.appendV hva).append hr))
   have e2 := Eats.labeled (rule := Pinned.Grammar.rule_10.shown) (l := "operator")
     (fr := [("selector", .sel x.sel)]) (by decide)
     (eats_op6 (off := off + x.text.length) (errs := errs) o
@@ -1001,13 +1006,13 @@ theorem eats_MatchSelectorOpValue (x : SelX) (o : OpSp) (v : ValSp) (hx : x.WF) 
 
 
 /-- `selector is [not] empty` -/
-theorem eats_MatchSelectorOp (x : SelX) (p : PostSp) (hx : x.WF) (hp : p.WF) (hr : Asc rest) :
+theorem eats_MatchSelectorOp (x : SelX) (p : PostSp) (hx : x.WF) (hp : p.WF) (hr : VT rest) :
     Eats rule (.ruleRef "MatchSelectorOp") fr (x.text ++ p.text) rest off errs fr
       (.expr (.match_ x.sel p.op none)) := by
   have hpa := p.text_asc hp
   have e1 := Eats.labeled (rule := Pinned.Grammar.rule_11.shown) (l := "selector") (fr := [])
     (by decide) (eats_SelX (off := off) (errs := errs) x hx
-      (x.follow_of_stops (p.stops hp rest)) (hpa.append hr))
+      (x.follow_of_stops (p.stops hp rest)) (hpa.appendV hr))
   have e2 := Eats.labeled (rule := Pinned.Grammar.rule_11.shown) (l := "operator")
     (fr := [("selector", .sel x.sel)]) (by decide)
     (eats_isChoice (off := off + x.text.length) (errs := errs) p hp hr)
@@ -1018,16 +1023,16 @@ theorem eats_MatchSelectorOp (x : SelX) (p : PostSp) (hx : x.WF) (hp : p.WF) (hr
 
 /-- `value [not] in selector` -/
 theorem eats_MatchValueOpSelector (v : ValSp) (i : InSp) (x : SelX) (hv : v.WF) (hi : i.WF)
-    (hx : x.WF) (hf : x.follow rest) (hr : Asc rest) :
+    (hx : x.WF) (hf : x.follow rest) (hr : VT rest) :
     Eats rule (.ruleRef "MatchValueOpSelector") fr (v.text ++ (i.text ++ x.text)) rest off errs fr
       (.expr (.match_ x.sel i.op (some v.raw))) := by
-  have hxa := x.text_asc hx
+  have hxa := x.text_vt hx
   have hia := i.text_asc hi
   have e1 := Eats.labeled (rule := Pinned.Grammar.rule_12.shown) (l := "value") (fr := [])
     (by decide) (eats_Value (off := off) (errs := errs) v hv
       (v.follow_of (by rw [List.append_assoc]; exact (i.stops hi _).1)
         (by rw [List.append_assoc]; exact (i.stops hi _).2))
-      (rest := i.text ++ x.text ++ rest) ((hia.append hxa).append hr))
+      (rest := i.text ++ x.text ++ rest) ((hia.appendV hxa).append hr))
   have e2 := Eats.labeled (rule := Pinned.Grammar.rule_12.shown) (l := "operator")
     (fr := [("value", .mval v.raw)]) (by decide)
     (eats_inChoice (off := off + v.text.length) (errs := errs) i hi
@@ -1042,12 +1047,12 @@ theorem eats_MatchValueOpSelector (v : ValSp) (i : InSp) (x : SelX) (hv : v.WF) 
   simp [runActionSem, Frame.get, List.find?]
 
 /-- a number or quoted value is not a selector -/
-theorem ValSp.fails_Selector (v : ValSp) (h : v.WF) (hns : ∀ σ, v ≠ .sel σ) (hr : Asc rest) :
+theorem ValSp.fails_Selector (v : ValSp) (h : v.WF) (hns : ∀ σ, v ≠ .sel σ) (hr : VT rest) :
     Fails rule (.ruleRef "Selector") fr (v.text ++ rest) off errs := by
   cases v with
   | sel σ => exact absurd rfl (hns σ)
   | num n =>
-    have hall : Asc (n.text ++ rest) := (n.text_asc h).append hr
+    have hall : VT (n.text ++ rest) := (n.text_asc h).appendV hr
     have hstart : headIn isAlpha (n.text ++ rest) = false ∧
         GoString.isPrefixOf [34] (n.text ++ rest) = false := by
       obtain ⟨hint, _⟩ := h
@@ -1067,14 +1072,14 @@ theorem ValSp.fails_Selector (v : ValSp) (h : v.WF) (hns : ∀ σ, v ≠ .sel σ
   | str q body val =>
     obtain ⟨hq, hb, hnq, hu, hdq⟩ := h
     have hq' : q.toNat < 128 := by rcases hq with rfl | rfl <;> decide
-    have hall : Asc ([q] ++ (body ++ [q]) ++ rest) :=
-      (Asc.cons hq' (hb.append (Asc.cons hq' Asc.nil))).append hr
+    have hall : VT ([q] ++ (body ++ [q]) ++ rest) :=
+      (VT.cons hq' (hb.append (VT.cons hq' VT.nil))).append hr
     rcases hq with rfl | rfl
     · exact RoundTrip.fails_Selector hall rfl rfl
     · obtain ⟨c, t, rfl, hc⟩ := hdq rfl
       have := fails_Selector_dq (rule := rule) (fr := fr) (off := off)
         (errs := errs) (c := c) (t := t ++ [34]) (rest := rest)
-        (Asc.cons hb.head (hb.tail.append (Asc.cons (by decide) Asc.nil))) hc
+        (by simpa using hb.append (VT.cons (b := 34) (by decide) VT.nil)) hc
         (hnq c (List.mem_cons_self ..)) hr
       simpa [ValSp.text] using this
 
@@ -1106,11 +1111,11 @@ def MatchSp.follow : MatchSp → GoString → Prop
   | .post .., _ => True
   | .inSel _ _ x, rest => x.follow rest
 
-theorem MatchSp.text_asc (m : MatchSp) (h : m.WF) : Asc m.text := by
+theorem MatchSp.text_vt (m : MatchSp) (h : m.WF) : VT m.text := by
   cases m with
-  | opValue x o v => exact (x.text_asc h.1).append ((o.text_asc h.2.1).append (v.text_asc h.2.2))
-  | post x p => exact (x.text_asc h.1).append (p.text_asc h.2)
-  | inSel v i x => exact (v.text_asc h.1).append ((i.text_asc h.2.1).append (x.text_asc h.2.2))
+  | opValue x o v => exact (x.text_vt h.1).append ((o.text_asc h.2.1).appendV (v.text_vt h.2.2))
+  | post x p => exact (x.text_vt h.1).append (p.text_asc h.2).vt
+  | inSel v i x => exact (v.text_vt h.1).append ((i.text_asc h.2.1).appendV (x.text_vt h.2.2))
 
 theorem MatchSp.head (m : MatchSp) (h : m.WF) : headIn tokStart (m.text ++ rest) = true := by
   cases m with
@@ -1125,7 +1130,7 @@ theorem MatchSp.head (m : MatchSp) (h : m.WF) : headIn tokStart (m.text ++ rest)
     rw [List.append_assoc]; exact v.head h.1
 
 /-- `MatchExpression <- MatchSelectorOpValue / MatchSelectorOp / MatchValueOpSelector` -/
-theorem eats_MatchExpression (m : MatchSp) (h : m.WF) (hf : m.follow rest) (hr : Asc rest) :
+theorem eats_MatchExpression (m : MatchSp) (h : m.WF) (hf : m.follow rest) (hr : VT rest) :
     Eats rule (.ruleRef "MatchExpression") fr m.text rest off errs fr (.expr m.ast) := by
   cases m with
   | opValue x o v =>
@@ -1136,13 +1141,13 @@ theorem eats_MatchExpression (m : MatchSp) (h : m.WF) (hf : m.follow rest) (hr :
     have hpa := p.text_asc hp
     -- MatchSelectorOpValue: the selector matches, none of the six operators does
     obtain ⟨w₁, r, e, hw, hstop, hno⟩ := p.noOp6 (rest := rest) hp
-    have hwa : Asc (w₁ ++ r) := by rw [← e]; exact hpa.append hr
+    have hwa : VT (w₁ ++ r) := by rw [← e]; exact hpa.appendV hr
     have f1 : Fails Pinned.Grammar.rule_9.shown (.ruleRef "MatchSelectorOpValue") []
         (x.text ++ p.text ++ rest) off errs := by
       refine Fails.ref look_MatchSelectorOpValue (by decide) (Fails.action (Fails.seq ?_))
       rw [List.append_assoc]
       refine FailsSeq.later (Eats.labeled (l := "selector") (by decide)
-        (eats_SelX x hx (x.follow_of_stops (p.stops hp rest)) (hpa.append hr))) ?_
+        (eats_SelX x hx (x.follow_of_stops (p.stops hp rest)) (hpa.appendV hr))) ?_
       rw [e]
       exact FailsSeq.here (Fails.labeled (fails_op6 hw hstop hno hwa))
     exact Eats.ref look_MatchExpression (by decide) (Eats.choice_next f1 (Eats.choice_hit
@@ -1150,10 +1155,10 @@ theorem eats_MatchExpression (m : MatchSp) (h : m.WF) (hf : m.follow rest) (hr :
   | inSel v i x =>
     obtain ⟨hv, hi, hx⟩ := h
     have hia := i.text_asc hi
-    have hxa := x.text_asc hx
-    have htail : Asc (i.text ++ (x.text ++ rest)) := hia.append (hxa.append hr)
+    have hxa := x.text_vt hx
+    have htail : VT (i.text ++ (x.text ++ rest)) := hia.appendV (hxa.append hr)
     obtain ⟨w₁, r, e, hw, hstop, hno, hnis⟩ := i.noOp6 (rest := x.text ++ rest) hi
-    have hwa : Asc (w₁ ++ r) := by rw [← e]; exact htail
+    have hwa : VT (w₁ ++ r) := by rw [← e]; exact htail
     -- both selector-first forms fail: either `Selector` fails on the value, or it matches a
     -- bare word and the operator choice fails on `in` / `not in`
     have key : ∀ (rl : String) (opE : PExpr) (more : List PExpr),
